@@ -727,6 +727,23 @@ pub fn c01_battery<S: Src>(_s: &mut S) {
             if MultiHostName::from_bytes(rb.clone()).map(|x| x.to_bytes()).ok() != Some(rb) { failures.borrow_mut().push(format!("MultiHostName with a {}-byte name does not round-trip", len)); }
         }
     }
+    // AuxiliaryData: every optional collection absent / present-but-empty / with one element, in both wire-format preferences
+    for mask in 0..54u32 {
+        let (m, n, p, alonzo) = (mask % 3, (mask / 3) % 3, (mask / 9) % 3, (mask / 27) % 2 == 1);
+        let mut aux = AuxiliaryData::new();
+        if m > 0 { let mut md = GeneralTransactionMetadata::new(); if m == 2 { md.insert(&bn(1), &TransactionMetadatum::new_text("x".to_string()).unwrap()); } aux.set_metadata(&md); }
+        if n > 0 { let mut ns = NativeScripts::new(); if n == 2 { ns.add(&native_script(1)); } aux.set_native_scripts(&ns); }
+        if p > 0 { let mut ps = PlutusScripts::new(); if p == 2 { ps.add(&PlutusScript::new(vec![1, 2])); ps.add(&PlutusScript::new_v2(vec![3])); } aux.set_plutus_scripts(&ps); }
+        aux.set_prefer_alonzo_format(alonzo);
+        let what = format!("AuxiliaryData (metadata {}, native scripts {}, plutus scripts {}, alonzo format {})", m, n, p, alonzo);
+        let b = aux.to_bytes();
+        if crate::wellformed::item_end(&b, 0, 16) != Some(b.len()) { failures.borrow_mut().push(format!("{}: emits malformed CBOR {:02x?}", what, b)); continue; }
+        match AuxiliaryData::from_bytes(b.clone()) {
+            Ok(back) => if back.to_bytes() != b { failures.borrow_mut().push(format!("{}: re-encoding after decoding differs", what)); },
+            Err(_) => failures.borrow_mut().push(format!("{}: its own encoding {:02x?} does not decode", what, b)),
+        }
+        if AuxiliaryData::from_hex(&aux.to_hex()).map(|x| x.to_bytes()).ok() != Some(b.clone()) { failures.borrow_mut().push(format!("{}: hex entry points disagree with the byte entry points", what)); }
+    }
     // ProtocolParamUpdate: every optional field on its own, adjacent pairs and all together
     {
         let ui = UnitInterval::new(&bn(1), &bn(2));
